@@ -41,6 +41,9 @@ type aeCtx struct {
 	budget         time.Duration   // wall-clock budget of one context: beyond it the analysis gives up (undecided)
 	orderedConst   map[string]bool // term is compared by order (not just equality) with constants
 	stageMode      bool
+	subModel       bool                         // model FindStringSubmatch results (constructor tables)
+	subOf          map[string]*regexInfo        // submatch list key -> pattern
+	subID          map[string]int               // pattern -> small number used in keys
 	symArith       bool                         // x+1 on an abstract integer is a derived term "(x+1)" (C05 desugaring tables only)
 	allowFirst     bool                         // model "i == 0" inside a zip loop as a position class (used by C14's queries only)
 	noStage        map[*ssa.Function]bool       // comparators whose operands are also read directly by the caller: inlined
@@ -626,7 +629,7 @@ func (r *aeRun) nilCmp(op token.Token, v any) bool {
 	case avIface, *avStruct, avAddr:
 		isNil = false
 	default:
-		r.oof("nil comparison of %T", v)
+		r.oof("nil comparison of %T (%v)", v, v)
 	}
 	if op == token.EQL {
 		return isNil
@@ -1570,6 +1573,10 @@ func (r *aeRun) derived(name string, args []any, t types.Type) any {
 	case *types.Slice:
 		_ = u
 		return avRef{key: key, side: side, t: t}
+	case *types.Interface:
+		if isErrorType(t) {
+			return r.mkTerm(key, side, t, akNil, baseKeys(args))
+		}
 	case *types.Tuple:
 		out := make(avTuple, u.Len())
 		for i := 0; i < u.Len(); i++ {
@@ -1743,6 +1750,8 @@ func (r *aeRun) evalCall(fr *frame, c *ssa.Call) any {
 			}
 		}
 		return avUnknown{"Join of an unmodelled slice"}
+	case "fmt.Errorf", "errors.New":
+		return avIface{avUnknown{"error value"}} // a freshly made error is never nil
 	case "strings.EqualFold":
 		// EqualFold(a, b) holds exactly when the canonical case foldings of a and b are equal: each
 		// side's folding is a value derived from that side
@@ -1764,6 +1773,24 @@ func (r *aeRun) evalCall(fr *frame, c *ssa.Call) any {
 		return boolC(r.cmp3o(fa, fb, false) == 0)
 	case "strconv.Atoi", "strconv.ParseInt", "strconv.ParseUint":
 		return r.derived("Atoi", args[:1], c.Type())
+	case "(*regexp.Regexp).FindStringSubmatch":
+		// the submatch list of a constant pattern: nil or one element per capture group; element k
+		// ranges over the language of group k (or is "" when the group does not take part)
+		if ri := r.ctx.p.regexOf(com.Args[0]); ri != nil && ri.Err == nil && r.ctx.subModel {
+			if t, ok := args[1].(avTerm); ok {
+				if r.ctx.subOf == nil {
+					r.ctx.subOf = map[string]*regexInfo{}
+					r.ctx.subID = map[string]int{}
+				}
+				if _, ok := r.ctx.subID[ri.Pattern]; !ok {
+					r.ctx.subID[ri.Pattern] = len(r.ctx.subID) + 1
+				}
+				key := fmt.Sprintf("m%d(%s)", r.ctx.subID[ri.Pattern], t.key)
+				r.ctx.subOf[key] = ri
+				return avRef{key: key, side: t.side, t: c.Type()}
+			}
+		}
+		return avUnknown{"FindStringSubmatch"}
 	case "(*regexp.Regexp).MatchString":
 		pat := "?"
 		if ri := r.ctx.p.regexOf(com.Args[0]); ri != nil {
